@@ -22,6 +22,7 @@ def cfg_for(facts, post_init=True):
     c = make_config(facts, extra_inline=INLINE, ret_summary=fit_summary)
     if post_init:
         c.post_init = lambda cls: cls.name in ("DiffusionCurve", "Mixture")
+    c.lenient = True   # only raise / return behaviour matters here, not values
     return c
 
 
@@ -103,8 +104,8 @@ def run(ck):
                     ok = bool(outs) and all(o.kind == "raise" for o in outs)
                     what = "cell %s raises" % cell
                 else:
-                    ok = len(outs) == 1 and outs[0].kind == "return"
-                    what = "cell %s is served by exactly one non-raising arm" % cell
+                    ok = bool(outs) and all(o.kind == "return" for o in outs)
+                    what = "cell %s is accepted (no path raises)" % cell
                 ck.ob("J2", f.qualname, what, f.loc(), ok,
                       found=lambda: "; ".join(o.kind if o.kind == "return" else "raise %s" % o.exc.exc_type for o in outs))
     # J3 other classes
